@@ -5,7 +5,7 @@
 From Coq Require Import String.
 From Coq Require Import List NArith ZArith Bool Arith.
 From Coq Require Import Init.Byte.
-From FFS Require Import Base.Res Base.Bytes Abi.Types Ffi.Model.
+From FFS Require Import Base.Res Base.Bytes Abi.Types Gen.AbiConsts AbiType.Syntax AbiType.Model Ffi.Model.
 Import ListNotations.
 
 Definition str (s : string) : bytes := ascii_bytes s.
@@ -153,3 +153,33 @@ Fixpoint explicit_widths (p : fparam) : bool :=
   match p with
   | FParam _ t _ _ cs => negb (is_alias (base_text t)) && forallb explicit_widths cs
   end.
+
+(* ---------- vocabulary of the round-trip statement ---------- *)
+
+(* a parameter is valid when the ABI type parser of pkg/abi (the C13 model) accepts it *)
+Definition parses (p : fparam) : Prop := exists tc, parseABIParameterComponents (erase p) = Ok tc.
+
+(* member names distinct in every components list *)
+Inductive wf_names : fparam -> Prop :=
+| WN n t i x cs : NoDup (map fp_name cs) -> Forall wf_names cs -> wf_names (FParam n t i x cs).
+
+(* the entry that comes back: components under a non-tuple type (which the ABI type parser never
+   looks at) are dropped, everything else is kept *)
+Definition is_tuple_type (t : bytes) : bool := bytes_eqb (take_lower t) (ascii_bytes tuple_type_string).
+Fixpoint norm (p : fparam) : fparam :=
+  match p with
+  | FParam n t i x cs => FParam n t i x (if is_tuple_type t then map norm cs else [])
+  end.
+
+(* no components under a non-tuple type, at any depth *)
+Inductive clean : fparam -> Prop :=
+| CL n t i x cs : (is_tuple_type t = false -> cs = []) -> Forall clean cs -> clean (FParam n t i x cs).
+
+Definition valid_params (l : list fparam) : Prop := Forall parses l /\ Forall wf_names l.
+Definition valid_entry (e : entry) : Prop := valid_params (e_inputs e) /\ valid_params (e_outputs e).
+Definition named (e : entry) : bool := negb (is_nil_b (e_name e)).
+
+(* what "the schema arrives intact" means for the oracle inputs of the way back: the jsonschema
+   compile accepts it and json.Unmarshal yields the struct that was marshalled *)
+Definition faithful (pn : pin) (ns : bytes * schema) : Prop :=
+  pi_name pn = fst ns /\ pi_verdict pn = true /\ pi_unm pn = Some (Some (snd ns)).
